@@ -215,6 +215,8 @@ def check_sem_labels(run):
                 if (f, s, e) == ("", 0, 0) and d["code"] != code:
                     continue      # a diagnostic without location ("not implemented", P9999): printed with no label at all
                 bad = bad or label_sanity(f, s, e, files)
+            if not bad and any(tuple(x) == (d["file"], d["start"], d["end"]) for x in d.get("secondary", [])):
+                bad = "a secondary label repeats the primary label [%d,%d): it names nothing else" % (d["start"], d["end"])
             if bad:
                 bad = "%s: %s" % (d["code"], bad)
                 break
@@ -239,6 +241,12 @@ def check_sem_labels(run):
                 g = what.split("constant global ")[1].split(" ")[0]
                 ok = sl.lower() == g.lower() and lo <= line <= hi
                 want = "the external variable %r" % g
+                # the secondary label is the global's own declaration: the same name, in another declaration
+                sec = [tuple(x) for x in d.get("secondary", [])]
+                if ok and (not sec or any(b[x[1]:x[2]].decode("utf-8", "replace").lower() != g.lower() or lo <= b.count(b"\n", 0, x[1]) <= hi for x in sec)):
+                    ok = False
+                    want = "the external variable %r with a secondary label on the declaration of the global constant (secondary labels: %r)" % (
+                        g, [(b[x[1]:x[2]].decode("utf-8", "replace"), b.count(b"\n", 0, x[1]) + 1) for x in sec])
             else:
                 ok = lo <= line < hi
                 want = "text in lines %d..%d (%r)" % (lo + 1, hi, " / ".join(x.strip() for x in tl[lo:hi])[:80])
